@@ -4,12 +4,15 @@ CONSTANTS
   MaxRecv = 2
   MaxOps = 4
   Rich = FALSE
-INVARIANT OneShotOnce
-INVARIANT FiredOneShotIsFreed
+INVARIANT SpentNotEnabled
 INVARIANT EachOnce
 INVARIANT OrdConsistent
 PROPERTY FreedNeverFires
 PROPERTY DisabledNeverFires
+PROPERTY SpentNeverFires
+PROPERTY FiredOneShotGone
 PROPERTY OrderIsRegistrationOrder
 PROPERTY NoRemovalDuringDelivery
+PROPERTY FaultTransparent
+PROPERTY SpecIsLegal
 PROPERTY NoPrefixMatch
